@@ -2377,6 +2377,9 @@ class Model:
         if self._t_index == 0:
             self.update_pars()  # Update transition parameters in case junction outflows are function parameters
             self.flush_junctions()  # Flush the current contents of the junction without including any inflows
+            for pop in self.pops:
+                for par in pop.pars:
+                    par._source_popsize_cache_time = None  # The flush changed compartment sizes at this time index, so any source popsize cached by the first `update_pars()` call is stale
             self.update_pars()  # Update the transition parameters in case junction outflows are functions _and_ they depend on compartment sizes that just changed in the line above
             self.update_links()  # Update all of the links
 
